@@ -43,15 +43,23 @@ func newAggregatedLabels(set LabelSet, by, without map[string]struct{}) *aggrega
 }
 
 // By returns new set of labels containing only given list of labels.
+//
+// An empty list keeps no label at all. Labels removed by a previous By can not reappear.
 func (a *aggregatedLabels) By(labels ...logql.Label) logqlmetric.AggregatedLabels {
-	if len(labels) == 0 {
-		return a
+	by := make(map[string]struct{}, len(labels))
+	for _, label := range labels {
+		if a.by != nil {
+			if _, ok := a.by[string(label)]; !ok {
+				continue
+			}
+		}
+		by[string(label)] = struct{}{}
 	}
 
 	sub := &aggregatedLabels{
 		entries: a.entries,
 		without: a.without,
-		by:      buildSet(maps.Clone(a.by), labels...),
+		by:      by,
 	}
 	return sub
 }
@@ -172,7 +180,8 @@ func (a *aggregatedLabels) forEach(cb func(k, v string)) {
 		if _, ok := a.without[e.name]; ok {
 			continue
 		}
-		if len(a.by) > 0 {
+		// nil means there is no `by` restriction, empty means keep nothing.
+		if a.by != nil {
 			if _, ok := a.by[e.name]; !ok {
 				continue
 			}
